@@ -351,6 +351,21 @@ PINNED_RULES = {
     "required_arg": "{ identifier }",
     "optional_arg": '{ identifier ~ "?" }',
     "rest_arg": '{ "..." ~ identifier }',
+    # string literals (Model/ExprPeg.lean `stringRule`): no escapes, the literal ends at its opening quote
+    "string_value": "@{ (!PEEK ~ ANY)* }",
+    "string": '${ PUSH("\\"" | "\'") ~ string_value ~ POP }',
+    # record literals (Model/ExprPeg.lean `recKeyR`, `recPairR`, `recItemR`, `recTailR`, `recordClose`):
+    # `record` and `record_pair` NON-ATOMIC, the normal rules between them inherit that
+    "record_key_static": "{ identifier | string }",
+    "record_key_dynamic": '{ "[" ~ expression ~ "]" }',
+    "record_key": "_{ record_key_static | record_key_dynamic }",
+    "record_pair": '!{ record_key ~ ":" ~ NEWLINE* ~ expression }',
+    "record_shorthand": "{ identifier }",
+    "record_item": "{ (record_pair | record_shorthand | spread_expression) ~ (WHITESPACE* ~ eol_comment)? }",
+    "record": '!{ "{}" | "{" ~ (comment ~ (WHITESPACE | plain_newline)+ | WHITESPACE | plain_newline)*'
+              ' ~ (record_item ~ ("," ~ (comment ~ (WHITESPACE | plain_newline)+ | WHITESPACE | plain_newline)* ~ record_item)*)?'
+              ' ~ ("," ~ (WHITESPACE | plain_newline)*)?'
+              ' ~ (comment ~ (WHITESPACE | plain_newline)* | WHITESPACE | plain_newline)* ~ "}" }',
     # conditionals (Model/ExprPeg.lean `condR`, `ifHead`, `kwGap`): atomic, explicit layout
     "conditional": '${ "if" ~ WHITESPACE+ ~ expression ~ (WHITESPACE | NEWLINE)+ ~ "then" ~ (WHITESPACE | NEWLINE)+ ~ expression'
                    ' ~ (WHITESPACE | NEWLINE)+ ~ "else" ~ (WHITESPACE | NEWLINE)+ ~ expression }',
